@@ -61,6 +61,13 @@ def planted():
                        W(2, 0, 5), ["sett", 1, ["cell", 1, ci, 6]], W(0, 0, 4)])
             ps.append([tab, ["drop", 0], ["setattr", 0, ci, ["tup", t]], ["newvec", [], "late", t], ["colview", 0, ci],
                        W(2, 0, 5), W(1, 1, 4)])
+    # a table BUILT from a dict whose values are the caller's tuples - one tuple for two columns, or a tuple a live vector was
+    # built over: every column owns its storage (cell writes, column views) and the caller's vector stays writable
+    for t in (0, 1):
+        ps.append([["newtab_dict", [["a", ["tup", t]], ["b", ["tup", t]]]], ["sett", 0, ["cell", 0, 0, 9]], ["colview", 0, 1],
+                   W(1, 1, 8), ["sett", 0, ["cell", 1, 1, 7]]])
+        ps.append([["newvec", [], "held", t], ["newtab_dict", [["a", ["tup", t]], ["b", list(range(3 if t == 0 else 2))]]],
+                   W(0, 0, 4), ["sett", 0, ["cell", 0, 0, 9]], ["colview", 0, 0], W(2, 1, 6)])
     return [{"prog": p} for p in ps]
 
 
